@@ -389,7 +389,8 @@ impl Oracle {
                     }
                 }
                 Pres::Absent | Pres::Zombie => {
-                    if !ok && cas == 0 {
+                    // add looks the key up first: an absent or expired key is stored to, whatever CAS the request carries
+                    if !ok {
                         let props: &[&'static str] = if pres == Pres::Zombie { &["C05", "C06"] } else { &["C06"] };
                         self.viol(props, line, format!("add on the absent{} key {} was rejected with status {:#x}", if pres == Pres::Zombie { " (expired)" } else { "" }, kx, status));
                     }
